@@ -82,7 +82,34 @@ def host_tree():
     return d
 
 
-def gen_config(r):
+# combinations that random sampling reaches rarely; they run first
+DIRECTED = [
+    (["-t", "ext4", "-b", "1024", "-O", "sparse_super2,^64bit"], ["num_backup_sb=1"], 65536),
+    (["-t", "ext4", "-b", "1024", "-O", "sparse_super2"], ["num_backup_sb=2"], 16384),
+    (["-t", "ext4", "-b", "1024", "-O", "sparse_super2"], ["num_backup_sb=0"], 20000),
+    (["-t", "ext4", "-b", "1024", "-O", "sparse_super2", "-g", "8192"], ["num_backup_sb=2"], 16385),          # two groups
+    (["-t", "ext4", "-b", "4096", "-O", "sparse_super2"], ["num_backup_sb=1"], 300000),
+    (["-t", "ext4", "-b", "4096", "-O", "bigalloc"], [], 262144),
+    (["-t", "ext4", "-b", "1024", "-O", "bigalloc", "-C", "8192"], [], 65536),
+    (["-t", "ext4", "-b", "1024", "-O", "meta_bg,^resize_inode"], [], 40000),
+    (["-t", "ext4", "-b", "2048", "-O", "quota,project"], [], 30000),
+    (["-t", "ext4", "-b", "4096"], ["resize=4000000"], 65536),
+    (["-t", "ext2", "-b", "1024", "-r", "0"], [], 8192),
+    (["-t", "ext4", "-b", "1024", "-O", "inline_data", "-I", "512"], [], 12000),
+    (["-t", "ext4", "-b", "1024", "-O", "^has_journal,^orphan_file,uninit_bg,^metadata_csum"], ["lazy_itable_init=0"], 9000),
+    (["-t", "ext4", "-b", "4096", "-O", "mmp"], [], 40000),
+    (["-t", "ext3", "-b", "1024", "-J", "size=4"], [], 32768),
+    (["-t", "ext4", "-b", "2048", "-G", "4", "-O", "flex_bg"], ["packed_meta_blocks=1"], 50000),
+]
+
+
+def gen_config(r, idx=None):
+    if idx is not None and idx < len(DIRECTED):
+        opts, ext, size_k = DIRECTED[idx]
+        feats = []
+        if "-O" in opts:
+            feats = opts[opts.index("-O") + 1].split(",")
+        return {"opts": list(opts), "ext": list(ext), "size_k": size_k, "bs": int(opts[opts.index("-b") + 1]), "type": opts[1], "feats": feats}
     t = r.choice(["ext2", "ext3", "ext4", "ext4", "ext4"])
     bs = r.choice([1024, 1024, 2048, 4096, 4096])
     k = r.random()
@@ -199,7 +226,7 @@ def requested_vs_actual(cfg, fs, dev_blocks):
 
 def tool_case(src, lexe, idx, seed, tier):
     r = e2v.rng(seed, "c07", idx)
-    cfg = gen_config(r)
+    cfg = gen_config(r, idx)
     img = os.path.join(WORK, "m_%d.img" % idx)
     env = e2v.tool_env(src, E2FSPROGS_FAKE_TIME="1700000000")
     T = lambda p: os.path.join(src, p)
@@ -335,7 +362,7 @@ def run(res, replay=None):
                 sweep_bad.append((l, x, y))
     res.sample({"geometry_case": lines[0].split()[2:], "columns": "blocks log_bs isz inodes bpg sparse sparse2 bb0 bb1 resize_inode meta_bg 64bit rsv"})
     # ---- B. mke2fs option grid
-    m = 40 if tier == "quick" else 3000
+    m = 48 if tier == "quick" else 3000
     idxs = [json.load(open(replay))["recipe"]["case_index"]] if replay else list(range(m))
     with concurrent.futures.ThreadPoolExecutor(12) as ex:
         outs = list(ex.map(lambda i: tool_case(src, lexe, i, seed, tier), idxs))
